@@ -34,9 +34,12 @@ Open Scope Z_scope.
 Definition ns_per_s : Z := 1000000000.
 
 (* int64 wrap-around of Duration arithmetic *)
-Definition wrap64 (z : Z) : Z := (z + 2 ^ 63) mod 2 ^ 64 - 2 ^ 63.
-Definition min_duration : Z := - 2 ^ 63.
-Definition max_duration : Z := 2 ^ 63 - 1.
+(* 2^63 = 9223372036854775808, 2^64 = 18446744073709551616 (numerals: evaluated often) *)
+Definition wrap64 (z : Z) : Z :=
+  if (-9223372036854775808 <=? z) && (z <=? 9223372036854775807) then z  (* fast path, same value *)
+  else (z + 9223372036854775808) mod 18446744073709551616 - 9223372036854775808.
+Definition min_duration : Z := - 9223372036854775808.
+Definition max_duration : Z := 9223372036854775807.
 
 (* time.Time.Sub: the difference, saturated to the Duration range *)
 Definition time_sub (t u : Z) : Z :=
@@ -67,6 +70,10 @@ Definition from_gps_with (cond : Z -> Z -> Z -> bool) (tbl : list (Z * Z)) (d : 
 (* the code of the working tree *)
 Definition to_gps (t : Z) : Z := to_gps_with cond_orig (table_ns leap_table) t.
 Definition from_gps (d : Z) : Z := from_gps_with cond_orig (table_ns leap_table) d.
+
+(* the repaired code *)
+Definition to_gps_fixed (t : Z) : Z := to_gps_with cond_to_fixed (table_ns leap_table) t.
+Definition from_gps_fixed (d : Z) : Z := from_gps_with cond_from_fixed (table_ns leap_table) d.
 
 (* the code before the repair (both loops use ls.Time.Before(t)) *)
 Definition to_gps_orig (t : Z) : Z := to_gps_with cond_orig (table_ns leap_table) t.
